@@ -81,7 +81,7 @@ func Gen(t *rapid.T, p Profile) Spec {
 		case "panic":
 			s.Ops = append(s.Ops, Op{K: "send", Panic: true, GateNext: rapid.IntRange(0, 3).Draw(t, "gate_next") == 0, From: rapid.IntRange(0, 3).Draw(t, "from"),
 				Internal: rapid.IntRange(0, 5).Draw(t, "internal") == 0,
-				PanicVal: rapid.SampledFrom([]int{0, 0, 1, 2, 2, 3, 4, 5}).Draw(t, "panic_val")})
+				PanicVal: rapid.SampledFrom([]int{0, 0, 1, 2, 2, 3, 4, 5, 6}).Draw(t, "panic_val")})
 		case "chain":
 			s.Ops = append(s.Ops, Op{K: "send", Chain: rapid.SampledFrom([]int{3, 40, 305, 330}).Draw(t, "chain"), From: rapid.IntRange(0, 3).Draw(t, "from")})
 		case "burst":
